@@ -2,6 +2,12 @@ module verifharness
 
 go 1.13
 
-require github.com/gocql/gocql v0.0.0
+require (
+	github.com/gocql/gocql v0.0.0
+	github.com/gocql/gocql/lz4 v0.0.0
+	github.com/pierrec/lz4/v4 v4.1.8
+)
 
 replace github.com/gocql/gocql => /repo
+
+replace github.com/gocql/gocql/lz4 => /repo/lz4
